@@ -9,3 +9,4 @@ import Refine.Model.NodeIds
 import Refine.Model.CellStore
 import Refine.Lemmas.ScalarReal
 import Refine.Props.C15
+import Refine.Props.C14NodeCell
